@@ -9,11 +9,13 @@ overlapping and unterminated notes) read with MidiFileInputDevice.read() and com
 Oracle (plain Python, from the property text): round trip on the implementation alone; for foreign files the
 absolute tick of every note recomputed by summing all delta times."""
 from common import *
+import re
 
 PROP = "C16"
+EXTRA_GENERATORS = ["gen_tables_pat.py"]       # Generated/TablesPat.v: Pattern.LENGTH_MAX of the source under test (size stratum)
 META = {
  "engine": "F-pure-functions",
- "text": "Coq theorems (Props/C16.v, closed under the global context) about an executable model of MidiFileOutputDevice, MidiFileInputDevice.read and the note/chord call trace: for ANY message list (any interleaving of note and non-note messages, arbitrary deltas) every note is placed at the sum of all deltas up to and including its own and gets the length up to its release, a note_on with velocity 0 being a release (C16_positions, C16_velocity0_is_release, C16_other_messages_only_shift); decoding the writer's deltas returns the ticks of the calls and the file length is the tick of write() (C16_deltas, C16_trailing_silence); for every sequence of notes, chords and rests with positive durations/lengths/velocities and no two overlapping notes of the same pitch, reading the written file returns the same pitches, velocities, grouping, onsets, lengths, and the same duration and gate for every event but the last (C16_roundtrip, all chords/gates). The model is tied to the repository on every run: files written through PDict.save, Timeline+MidiFileOutputDevice and the bare device are parsed with mido and compared message by message with the model; those files and foreign files built with mido are read with MidiFileInputDevice.read() and compared with the model's reader inside Coq (vm_compute). An independent Python oracle (round trip; absolute ticks by summing all deltas) judges every implementation result and supplies the failing input. Reader objects that outlive the file (IO/ReaderHistory.v): for ALL histories of writes (by isobar or anything else), removals and reads through long-lived reader objects with any quantize values, every read returns the decoding of the LATEST write to its path and earlier reads play no role (C16_history_*), incl. the round trip through a history; checked on every run on histories `write; read; rewrite; read ...` on one reader object per path, each read judged against a reader object created at that moment and against the file as it is on disk.",
+ "text": "Coq theorems (Props/C16.v, closed under the global context) about an executable model of MidiFileOutputDevice, MidiFileInputDevice.read and the note/chord call trace: for ANY message list (any interleaving of note and non-note messages, arbitrary deltas) every note is placed at the sum of all deltas up to and including its own and gets the length up to its release, a note_on with velocity 0 being a release (C16_positions, C16_velocity0_is_release, C16_other_messages_only_shift); decoding the writer's deltas returns the ticks of the calls and the file length is the tick of write() (C16_deltas, C16_trailing_silence); for every sequence of notes, chords and rests with positive durations/lengths/velocities and no two overlapping notes of the same pitch, reading the written file returns the same pitches, velocities, grouping, onsets, lengths, and the same duration and gate for every event but the last (C16_roundtrip, all chords/gates). The model is tied to the repository on every run: files written through PDict.save, Timeline+MidiFileOutputDevice and the bare device are parsed with mido and compared message by message with the model; those files and foreign files built with mido are read with MidiFileInputDevice.read() and compared with the model's reader inside Coq (vm_compute). An independent Python oracle (round trip; absolute ticks by summing all deltas) judges every implementation result and supplies the failing input. Reader objects that outlive the file (IO/ReaderHistory.v): for ALL histories of writes (by isobar or anything else), removals and reads through long-lived reader objects with any quantize values, every read returns the decoding of the LATEST write to its path and earlier reads play no role (C16_history_*), incl. the round trip through a history; checked on every run on histories `write; read; rewrite; read ...` on one reader object per path, each read judged against a reader object created at that moment and against the file as it is on disk. Size (IO/LongPiece.v): every voice of every event, however many, is written as a note_on at its onset tick (C16_all_voices_written), and the endless score long_piece is a legal piece that round-trips at ANY length, in particular beyond Pattern.LENGTH_MAX (C16_long_piece, C16_beyond_length_max); checked on every run with pieces of LENGTH_MAX + 500 / + 37 events (the constant read from the source under test) through PDict.save and through a Timeline with a MidiFileOutputDevice, every event judged, closed forms (counts, checksums, lengths) compared with the model.",
  "note": "Trusted: Coq kernel + VM; mido (bytes of the Standard MIDI File, both directions); the Python harness incl. conversion of observed floats (beats) to ticks (must be within 1e-6 tick of an integer). Modelled not verified: float arithmetic of the device clock (time += 1/tpb; int(round(dt*tpb))) is modelled as exact tick counting — validated by the correspondence incl. long files; the call trace of the scheduler for a note/chord sequence (which tick, which order) is an executable model validated per case against the written file, its general correctness is C01/C02's business; read(quantize=...) is modelled (round-half-even on exact tick arithmetic) and compared in the history stratum only where ties are exact in floats or impossible; only the first track containing a note_on is read (as the code does).",
 }
 
@@ -500,6 +502,98 @@ def snippet(case):
                           "print({k: list(v.sequence) for k, v in MidiFileInputDevice('c16_replay.mid').read().items()})\n")
 
 
+# ---- SIZE: pieces longer than any internal limit of the library ------------------------------------------------
+# The dimension: a piece of more than Pattern.LENGTH_MAX events (the constant is read from Generated/TablesPat.v, which the
+# build step regenerates from the source under test) written through PDict.save AND through a Timeline with a
+# MidiFileOutputDevice, parsed with mido and read back with read().  The oracle judges every event (oracle_events); the
+# model side is the closed form of IO/LongPiece.v (number, position and content of all note_ons as a rolling checksum, file
+# length, number / durations / pitches / lengths of the events read back), theorems C16_long_piece, C16_all_voices_written.
+HEADER_LONG = """From Isobar Require Import Base.Prelude IO.MidiFile IO.LongPiece Generated.TablesPat.
+"""
+CK = 1000000007
+
+
+def length_max():
+    txt = open(os.path.join(COQDIR, "Generated", "TablesPat.v")).read()
+    m = re.search(r"Definition LENGTH_MAX : Z := (\d+)\.", txt)
+    if not m:
+        raise CheckError("Generated/TablesPat.v carries no LENGTH_MAX")
+    return int(m.group(1))
+
+
+def long_events(n, start=0):
+    """the endless score of IO/LongPiece.v (long_event j), events start .. start+n-1, in file ticks"""
+    evs = []
+    for j in range(start, start + n):
+        d = 2 + j % 3
+        if j % 7 == 3:
+            evs.append({"notes": [[40 + j % 50, 1 + j % 127, 1 + j % d], [95 + j % 30, 1 + (5 * j) % 127, d]], "dur": d, "shape": "tuple"})
+        else:
+            evs.append({"notes": [[1 + (11 * j) % 127, 1 + (13 * j) % 127, 1 + j % d]], "dur": d, "shape": "tuple"})
+    return evs
+
+
+def gen_long_case(n, via, clock_tpb, file_tpb):
+    return {"kind": "events", "via": via, "clock_tpb": clock_tpb, "file_tpb": file_tpb, "events": long_events(n), "stratum": "beyond_length_max",
+            "also_load": False, "long": n}
+
+
+def roll(acc, x):
+    return (acc * 31 + x) % CK
+
+
+def long_summary(file, c):
+    """the observed closed forms: see IO/LongPiece.v piece_summary"""
+    t, ons = 0, []
+    for m in file["tracks"][0]:
+        t += m[0]
+        if m[1] == "note_on" and m[4] > 0:
+            ons.append((m[3], m[4], t))
+    ck = 0
+    for p, v, tk in ons:
+        ck = roll(ck, p + 131 * v + 16411 * tk)
+    out = [len(ons), ck, t]
+    if c[0] != "ok":
+        return None
+    _, notes, amps, gates, durs = c
+    ckp = ckl = 0
+    for n_ in notes:
+        for x in as_list(n_):
+            ckp = roll(ckp, x)
+    for g in gates:
+        for x in (g if isinstance(g, list) else [g]):
+            ckl = roll(ckl, x[0])
+    return out + [len(durs), sum(durs), ckp, ckl, 1]
+
+
+def long_doc(case):
+    """what goes into replays and samples instead of the 70 000 events"""
+    return {"kind": "events", "long": case["long"], "via": case["via"], "clock_tpb": case["clock_tpb"], "file_tpb": case.get("file_tpb"),
+            "stratum": "beyond_length_max", "events": "harness/c16.py long_events(%d): event j lasts 2 + j %% 3 ticks; j %% 7 == 3: chord (40 + j %% 50, 95 + j %% 30), "
+                                         "else note 1 + 11 j %% 127; velocities 1 + j %% 127 / 1 + 5 j %% 127 / 1 + 13 j %% 127; lengths 1 + j %% duration (second chord note: the duration)" % case["long"]}
+
+
+def long_snippet(case):
+    tpb = case.get("file_tpb") or 480
+    head = ("import isobar as iso, mido\nfrom isobar.io.midifile import MidiFileOutputDevice, MidiFileInputDevice\n"
+            "N, TPB = %d, %d\nnotes, amps, gates, durs = [], [], [], []\n"
+            "for j in range(N):\n    d = 2 + j %% 3\n"
+            "    if j %% 7 == 3: notes.append((40 + j %% 50, 95 + j %% 30)); amps.append((1 + j %% 127, 1 + (5 * j) %% 127)); gates.append(((1 + j %% d) / d, 1.0))\n"
+            "    else: notes.append((1 + (11 * j) %% 127,)); amps.append((1 + (13 * j) %% 127,)); gates.append(((1 + j %% d) / d,))\n"
+            "    durs.append(d / TPB)\n"
+            "ev = {iso.EVENT_NOTE: iso.PSequence(notes, 1), iso.EVENT_DURATION: iso.PSequence(durs, 1), iso.EVENT_GATE: iso.PSequence(gates, 1), iso.EVENT_AMPLITUDE: iso.PSequence(amps, 1)}\n"
+            % (case["long"], tpb))
+    if case["via"] == "save":
+        body = "iso.PDict(ev).save('c16_long.mid')\n"
+    else:
+        body = ("dev = MidiFileOutputDevice('c16_long.mid')\n%s"
+                "tl = iso.Timeline(120, output_device=dev, clock_source=iso.DummyClock(ticks_per_beat=%d)); tl.stop_when_done = True\n"
+                "tl.schedule(ev); tl.run(); dev.write()\n" % ("dev.midifile.ticks_per_beat = %d\n" % case["file_tpb"] if case.get("file_tpb") else "", case["clock_tpb"]))
+    return head + body + ("tr = mido.MidiFile('c16_long.mid').tracks[0]\n"
+                          "print(sum(1 for m in tr if m.type == 'note_on' and m.velocity > 0), 'note_ons in the file,', sum(m.time for m in tr), 'ticks long; written:', sum(len(x) for x in notes), 'notes,', sum(2 + j % 3 for j in range(N)), 'ticks')\n"
+                          "print(len(list(MidiFileInputDevice('c16_long.mid').read()[iso.EVENT_DURATION].sequence)), 'events read back of', N)\n")
+
+
 # ---- histories: reader objects that outlive the file ---------------------------------------------------
 # The dimension: ONE MidiFileInputDevice object per path, created once, used for several reads (several quantize values)
 # while the file at its path is rewritten by isobar or by anything else, or removed.  Model: IO/ReaderHistory.v
@@ -790,6 +884,8 @@ def judge(run, cases, report=True):
         run.cov["oracle_evaluations"] += 1
         run.dist("outcome." + (c[1] if c[0] == "raise" else c[0] if c[0] != "ok" else
                                ("ok.zero-length-last-note" if len(c[4]) != len(c[1]) else "ok.empty" if not c[1] else "ok")))
+        doc = long_doc(case) if case.get("long") else case           # what replays / samples carry
+        snip = long_snippet if case.get("long") else snippet
         bad = oracle_events(case, r, c) if kind == "events" else (oracle_foreign(r, c) if kind == "foreign" else oracle_foreign(r, c))
         if kind == "events" and case.get("also_load") and r.get("load") is not None:
             cl = canon_read(dict(r["load"], is_psequence=True), tpb)
@@ -799,17 +895,28 @@ def judge(run, cases, report=True):
             failures += 1
             if report:
                 k0, detail = bad[0]
+                big = bool(case.get("long"))
                 run.violation({"kind": k0, "site": kind if kind != "events" else "events"}, {
-                    "case": case, "observed": detail, "read": r["read"], "file": r["file"],
+                    "case": doc, "observed": detail, "read": None if big else r["read"], "file": None if big else r["file"],
                     "oracle": "round trip on the implementation / absolute ticks by summing all deltas",
-                    "all_failures": [b[0] for b in bad], "python": snippet(case)})
+                    "all_failures": [b[0] for b in bad], "python": snip(case)})
         case["_oracle_bad"] = bool(bad)
-        text = json.dumps({k: v for k, v in case.items() if not k.startswith("_")}, sort_keys=True)
+        text = json.dumps({k: v for k, v in doc.items() if not k.startswith("_")}, sort_keys=True)
         if (kind == "events" and any(e["notes"] for e in case["events"])) or (kind != "events" and any(
                 m[1] == "note_on" and m[4] > 0 for tr in r["file"]["tracks"] for m in tr)):
             run.nontrivial(text)
         # --- correspondence terms
         ftracks = r["file"]["tracks"]
+        if case.get("long"):
+            # closed forms only (IO/LongPiece.v piece_summary): the full message list of 70 000 events is not sent to Coq
+            n = case["long"]
+            run.dist("long.events>LENGTH_MAX" if n > run.cov.get("LENGTH_MAX", 0) else "long.events<=LENGTH_MAX")
+            run.dist("long.route.%s" % case["via"])
+            obs = long_summary(r["file"], c) if len(ftracks) == 1 and (case.get("file_tpb") or 480) == tpb else None
+            run.cov["long_piece_notes_compared"] = run.cov.get("long_piece_notes_compared", 0) + (obs[0] if obs else 0)
+            terms.append("long_ok (LENGTH_MAX + %d) %s" % (n - run.cov["LENGTH_MAX"], zlist(obs)) if obs else "false")
+            meta.append((case, "long", "piece_summary (long_piece 0 (Z.to_nat (LENGTH_MAX + %d)))" % (n - run.cov["LENGTH_MAX"])))
+            continue
         if kind == "events":
             es = events_lit(case["events"])
             terms.append("events_ok %s && feq (file_of_events %s) %s" % (es, es, track_lit(strip_eot(ftracks[0]))))
@@ -829,7 +936,11 @@ def judge(run, cases, report=True):
             terms.append("routcome_eqb (ROk (expected %s)) %s" % (es, ol) if ol and any(e["notes"] for e in case["events"]) else "true")
             meta.append((case, "roundtrip", "expected %s" % es))
         run.sample({"case": {k: v for k, v in case.items() if not k.startswith("_")}, "file": r["file"], "read": r["read"]}, limit=3)
-    failing = run.coq_failing(HEADER, terms, chunk=150)
+    if any(m[1] == "long" for m in meta):
+        header, chunk = HEADER_LONG, 1
+    else:
+        header, chunk = HEADER, 150
+    failing = run.coq_failing(header, terms, chunk=chunk)
     run.cov["traces_validated_against_impl"] += len(terms) - len(failing)
     shown = 0
     for i in failing:
@@ -844,9 +955,16 @@ def judge(run, cases, report=True):
         if shown < 3:
             shown += 1
             try:
-                expected = run.coq_eval(HEADER, model_term)[:3000]
+                expected = run.coq_eval(HEADER_LONG if what == "long" else HEADER, model_term)[:3000]
             except CheckError:
                 expected = None
+        if what == "long":
+            run.violation({"kind": "correspondence-long", "site": "events"}, {
+                "case": long_doc(case), "relation": "closed forms of the written file and of read() for a piece beyond LENGTH_MAX = IO/LongPiece.v piece_summary "
+                "[note_ons, checksum (pitch, velocity, tick), file length, events read, sum of durations, checksum pitches, checksum lengths, events_short]",
+                "expected_model": expected, "observed": long_summary(res[id(case)]["file"], canon_read(res[id(case)]["read"], res[id(case)]["file"]["tpb"])),
+                "python": long_snippet(case)})
+            continue
         run.violation({"kind": "correspondence-" + what, "site": case["kind"]}, {
             "case": {k: v for k, v in case.items() if not k.startswith("_")},
             "relation": {"writer": "file written by the implementation (parsed with mido) = message list of the model",
@@ -880,8 +998,22 @@ def check(run):
     # a long file: 60 000 device ticks (float clock of the device)
     cases.append({"kind": "device", "file_tpb": None, "stratum": "device.big",
                   "ops": [["on", 60, 64, 0], ["t", 59999], ["off", 60, 0], ["t", 1], ["on", 61, 1, 0], ["t", 7], ["off", 61, 0]]})
+    # deltas at the boundaries where the variable-length quantity of the file grows a byte (2^7, 2^14, 2^21, up to 2^28 - 1)
+    for k, big in enumerate([127, 128, 16383, 16384, 2097151, 2097152, 268435455]):
+        cases.append({"kind": "foreign", "tpb": [480, 96, 1000][k % 3], "type": k % 2, "stratum": "foreign.vlq_boundary", "tracks": [[
+            [big, "note_on", 0, 60, 64], [big - 1 if big > 127 else 1, "control_change", 0, 7, 1], [1, "note_off", 0, 60, 0],
+            [big, "pitchwheel", 0, 5], [0, "note_on", 1, 62, 1], [big + (1 if big < 268435455 else 0), "note_on", 1, 62, 0]]]})
     for i in range(0, len(cases), 1500):
         judge(run, cases[i:i + 1500])
+    # SIZE: pieces beyond Pattern.LENGTH_MAX, through PDict.save and through a Timeline with a MidiFileOutputDevice
+    lm = run.cov["LENGTH_MAX"] = length_max()
+    if lm <= 200000:
+        longs = [gen_long_case(lm + 500, "save", 480, None), gen_long_case(lm + 37, "timeline", 24, 24)]
+        if not quick:
+            longs += [gen_long_case(lm + 1, "save", 480, None), gen_long_case(2 * lm + 3, "manual", 96, 96), gen_long_case(lm + 4000, "timeline", 480, None)]
+        judge(run, longs)                    # one driver process and one coqc per piece, in parallel
+    else:
+        run.discard("Pattern.LENGTH_MAX = %d: a piece beyond the limit is too long for this check" % lm)
     judge_history(run, [gen_history_case(rng, i) for i in range(180 if quick else 1500)])
     run.cov["rule"] = ("one case = one MIDI file: written by isobar from a note/chord/rest sequence (PDict.save / Timeline + "
                        "MidiFileOutputDevice / bare device calls) or built with mido (foreign), then parsed with mido and read with "
@@ -899,6 +1031,10 @@ def replay(run, doc):
             check(run)
         return run.finish()
     case = {k: v for k, v in case.items() if not k.startswith("_")}
+    if case.get("long"):
+        run.cov["LENGTH_MAX"] = length_max()
+        case = gen_long_case(case["long"], case["via"], case["clock_tpb"], case.get("file_tpb"))
+        return 1 if judge(run, [case], report=True) else 0
     if case["kind"] == "history":
         return 1 if judge_history(run, [case], report=True) else 0
     n = judge(run, [case], report=True)
